@@ -181,6 +181,24 @@ def run_scenario(sc):
     return _scenario(R, sc, in_thread=False)
 
 
+APP_EXCEPTIONS = {"FileNotFoundError": FileNotFoundError, "TimeoutError": TimeoutError, "BrokenPipeError": BrokenPipeError,
+                  "ZeroDivisionError": ZeroDivisionError, "SystemExit": SystemExit, "UnicodeEncodeError": None}
+
+
+def app_exception(sc, msg):
+    """the exception the application's own code raises inside the body: a KeyboardInterrupt by
+    default, or the type the scenario names (a missing file, a closed pipe, sys.exit())"""
+    name = sc.get("exc")
+    if name == "UnicodeEncodeError":
+        ex = UnicodeEncodeError("ascii", "\xe9", 0, 1, msg)
+    elif name:
+        ex = APP_EXCEPTIONS[name](msg)
+    else:
+        return inject.Inject(msg)
+    ex._from_harness = True
+    return ex
+
+
 def _scenario(R, sc, in_thread):
     import curtsies
     from curtsies import Input, FullscreenWindow, CursorAwareWindow, Cbreak, Nonblocking, Termmode
@@ -265,7 +283,7 @@ def _scenario(R, sc, in_thread):
             if crash and crash[0] == "op" and crash[1] == k:
                 obs["fired"] = True
                 obs["where"] = ("before op", k, op)
-                raise inject.Inject("before op %d" % k)
+                raise app_exception(sc, "before op %d" % k)
             if op in ("send0", "send_s"):
                 if sc.get("survive"):
                     # the usual "survive Ctrl-C" loop: the interrupt is caught around the request
@@ -317,7 +335,7 @@ def _scenario(R, sc, in_thread):
         if crash and crash[0] == "op" and crash[1] == len(sc.get("body", [])):
             obs["fired"] = True
             obs["where"] = ("after last op",)
-            raise inject.Inject("after the last op")
+            raise app_exception(sc, "after the last op")
 
     def guarded():
         fp.arm(crash[1] if crash and crash[0] == "line" else None,
@@ -365,6 +383,10 @@ def _scenario(R, sc, in_thread):
     except inject.Inject as ex:
         exc = ex
     except KeyboardInterrupt as ex:
+        exc = ex
+    except BaseException as ex:
+        if not getattr(ex, "_from_harness", False):
+            raise
         exc = ex
     finally:
         fp.disarm()
@@ -450,7 +472,51 @@ def judge(ctx, sc, obs):
     ctx.count("scenarios")
 
 
+def run_nonblocking_streams(ctx, case):
+    """Nonblocking on streams that are not a tty - the read end of a pipe (file status flags 0),
+    its write end, /dev/null, a socket - with and without further flags set beforehand; left
+    normally or through an exception; the same object used twice."""
+    import socket
+    from curtsies import Nonblocking
+    r, w = os.pipe()
+    sa, sb = socket.socketpair()
+    streams = {"pipe-read": os.fdopen(r, "rb", 0), "pipe-write": os.fdopen(w, "wb", 0),
+               "devnull": open(os.devnull, "rb", 0), "socket": sa.makefile("rwb", 0)}
+    try:
+        st = streams[case["stream"]]
+        fd = st.fileno()
+        extra = case.get("flags", 0)
+        if extra:
+            fcntl.fcntl(fd, fcntl.F_SETFL, fcntl.fcntl(fd, fcntl.F_GETFL) | extra)
+        before = fcntl.fcntl(fd, fcntl.F_GETFL)
+        problems = []
+        cm = Nonblocking(st)
+        for use in range(case.get("uses", 1)):
+            try:
+                with cm:
+                    if not fcntl.fcntl(fd, fcntl.F_GETFL) & os.O_NONBLOCK:
+                        problems.append("use %d: not non-blocking inside the context" % use)
+                    if case.get("raises"):
+                        raise app_exception({"exc": case["raises"]}, "inside Nonblocking")
+            except BaseException as ex:  # noqa
+                if not getattr(ex, "_from_harness", False):
+                    problems.append("use %d: %r" % (use, ex))
+            after = fcntl.fcntl(fd, fcntl.F_GETFL)
+            if after != before:
+                problems.append("use %d: file status flags %#o before, %#o after" % (use, before, after))
+        ctx.judge(not problems, case, ("C12", "nonblocking-streams", repr(case)), "C12:not-restored:flags",
+                  "flags as before", problems, {"flags_before": before})
+        ctx.count("nonblocking_on_other_streams")
+    finally:
+        for st in streams.values():
+            st.close()
+        sa.close()
+        sb.close()
+
+
 def run_case(ctx, case):
+    if case.get("kind") == "nonblocking-streams":
+        return run_nonblocking_streams(ctx, case)
     if case.get("kind") == "sigint":
         return run_sigint(ctx, case)
     if case.get("kind") == "storm":
@@ -484,6 +550,11 @@ def enumerate_crashes(ctx, sc, lines=True, ops=True, mine=None):
             if take():
                 c = dict(sc, crash=["op", k])
                 judge(ctx, c, run_scenario(c))
+                # the same exit through another kind of exception
+                names = sorted(APP_EXCEPTIONS)
+                c = dict(sc, crash=["op", k], exc=names[(k + len(repr(sc))) % len(names)])
+                judge(ctx, c, run_scenario(c))
+                ctx.count("exits_through_other_exception_types")
     if lines:
         for k in range(1, nlines + 1):
             if take():
@@ -1003,6 +1074,12 @@ def run(ctx):
             for mode in ("cooked", "raw"):
                 run_nested_inputs(ctx, {"kind": "nested-inputs", "inner_sigint_event": ise, "tty": mode})
         run_cycles(ctx, {"kind": "cycles", "n": 100 if ctx.quick else 1000})
+        for stream_ in ("pipe-read", "pipe-write", "devnull", "socket"):
+            for flags_ in (0, os.O_NONBLOCK, os.O_APPEND):
+                for raises_ in (None, "TimeoutError", "ZeroDivisionError"):
+                    for uses_ in (1, 2):
+                        run_nonblocking_streams(ctx, {"kind": "nonblocking-streams", "stream": stream_, "flags": flags_,
+                                                      "raises": raises_, "uses": uses_})
         for what in ("cbreak", "termmode", "nonblocking"):
             for eo in ("fifo", "lifo"):
                 for modes in (["cooked", "raw"], ["noecho", "cooked"], ["vmin", "noisig"]):
